@@ -6,6 +6,7 @@ import Proofs.C16EventsRefresh
 import Proofs.C16EventsAgreeRefresh
 import Proofs.C16EventsFollow
 import Proofs.C16EventsDebounce
+import Proofs.C16EventsNoLoss
 import Proofs.C16Refresh
 import Proofs.C16EventsPolicyNew
 import Proofs.C16EventsUpdate
@@ -651,29 +652,136 @@ example :
     (v.handleBatch env b).refreshReq = 2 ∧ ((coalesce b).filter (unknownUp v.ring)).length = 1 ∧
     (v.handleBatch env [.topology, .topology, .topology]).refreshReq = 1 := by decide
 
-/-- `C16_refresh_debounced` (the refresh debouncer, all interleavings of requests, timer and flusher; logical
-time): from ANY state of the debouncer, if every `debounce()` of the run happens within one interval of
-its start (and nobody calls `refreshNow()`), at most TWO refreshes are started in the whole run, however
-long it is and however many requests it contains; from a quiet state (timer not armed, nothing pending)
-at most ONE. -/
+/-- `C16_refresh_debounced` (the refresh debouncer, all interleavings of requests, timer and flusher — requests
+and timer expiries while the flusher is between its select and the mutex or inside refreshFn included;
+logical time): from ANY state of the debouncer, if every `debounce()` of the run happens within one interval
+of its start (and nobody calls `refreshNow()`), at most TWO refreshes are started in the whole run, however
+long it is and however many requests it contains; from a quiet state (timer not armed, nothing pending,
+flusher not on its way to a refresh) at most ONE. -/
 theorem C16_refresh_debounced (I : Nat) (d : RDeb) (as : List RAct) (hr : ReqsBefore I (d.now + I) d as) :
     (rrun I d as).refreshes ≤ d.refreshes + 2 ∧
-    (d.fired = false → d.nowPending = false → d.deadline = none → (rrun I d as).refreshes ≤ d.refreshes + 1) := by
+    (d.fired = false → d.nowPending = false → d.deadline = none → d.phase ≠ .woken →
+      (rrun I d as).refreshes ≤ d.refreshes + 1) := by
   have h := rrun_phi I (d.now + I) as d (Nat.le_refl _) hr
   have h2 := phi_le_two (d.now + I) d
   refine ⟨by omega, ?_⟩
-  intro hf hp hd
+  intro hf hp hd hw
   have : phi (d.now + I) d ≤ 1 := by
     unfold phi early late
     rw [hf, hp, hd]
-    simp only [Bool.or_self, Option.isSome_none, Bool.false_eq_true, ↓reduceIte]
+    simp only [hw, Bool.or_self, Option.isSome_none, Bool.false_eq_true, ↓reduceIte]
     split <;> omega
   omega
 
-/-- non-vacuity: five requests in one interval, the timer fires once, one refresh -/
+/-- non-vacuity: five requests in one interval, the timer fires once, one refresh; two more requests WHILE that refresh
+is running (still within the interval): one more refresh after it -/
 example :
-    let as : List RAct := [.debounce, .tick, .debounce, .debounce, .tick, .debounce, .debounce, .tick, .tick, .tick, .tick, .wake, .done, .tick, .tick, .wake]
+    let as : List RAct := [.debounce, .tick, .debounce, .debounce, .tick, .debounce, .debounce, .tick, .tick, .tick, .tick,
+      .wakeT, .start, .done, .tick, .tick, .wakeT, .start]
     ReqsBefore 3 3 {} as ∧ (rrun 3 {} as).refreshes = 1 := by decide
+/-- the bound 2 is reached: a timer expiry is in the channel, three requests arrive while the flusher is on its way to
+the refresh and while the refresh is running -/
+example :
+    let d0 : RDeb := { fired := true }
+    let as : List RAct := [.wakeT, .debounce, .start, .debounce, .tick, .debounce, .done, .tick, .tick, .tick,
+      .wakeT, .start, .done, .tick, .tick, .tick, .tick, .wakeT, .wakeN, .start]
+    ReqsBefore 3 3 d0 as ∧ (rrun 3 d0 as).refreshes = 2 := by decide
+
+/-- `C16_refresh_request_not_lost` (all schedules of requests, timer and flusher; `pre`, `post` arbitrary): after a
+request — `debounce()` or `refreshNow()`, made in ANY reachable state: flusher in its select, between select
+and mutex, or INSIDE refreshFn — at every later point of every schedule either a refresh has STARTED after
+the request, or one is certainly still to come (`armed`: the flusher is on its way to it, a channel it
+selects on holds a value, or the timer runs). In particular whenever the debouncer is not armed (e.g. quiet),
+every request made so far has been followed by a refresh that started after it. -/
+theorem C16_refresh_request_not_lost (I : Nat) (pre post : List RAct) (a : RAct) (ha : a = .debounce ∨ a = .refreshNow) :
+    let d1 := rrun I {} (pre ++ [a])
+    let d2 := rrun I d1 post
+    (d1.refreshes < d2.refreshes ∨ d2.armed = true) ∧
+    ((grun I {} (pre ++ a :: post)).d.armed = false → (grun I {} (pre ++ a :: post)).lost = []) := by
+  refine ⟨?_, fun hq => served_lost_nil _ (grun_served I _ _ served_init) hq⟩
+  have hs := grun_served I (pre ++ a :: post) {} served_init
+  have e : pre ++ a :: post = (pre ++ [a]) ++ post := by simp
+  rw [e, grun_append] at hs
+  -- the request is the last element of the bookkeeping after `pre ++ [a]`
+  have hmem : (grun I {} pre).d.refreshes ∈ (grun I {} (pre ++ [a])).reqs := by
+    rw [grun_append]
+    rcases ha with rfl | rfl <;> simp [grun, gstep, gstepWith]
+  have hreq : (grun I {} (pre ++ [a])).d.refreshes = (grun I {} pre).d.refreshes := by
+    rw [grun_append]
+    have := rstep_request_armed I (grun I {} pre).d a ha (grun_served I pre {} served_init).2
+    simp only [grun, List.foldl_cons, List.foldl_nil, gstep_d]
+    exact this.1
+  -- requests are only appended
+  have hsub : ∀ (as : List RAct) (g : RGhost) (r : Nat), r ∈ g.reqs → r ∈ (grun I g as).reqs := by
+    intro as
+    induction as with
+    | nil => intro g r h; exact h
+    | cons x t ih =>
+      intro g r h
+      apply ih
+      rw [gstep_reqs]
+      split
+      · exact List.mem_append_left _ h
+      · exact h
+  have hd1 : (grun I ({} : RGhost) (pre ++ [a])).d = rrun I {} (pre ++ [a]) := grun_d I _ _
+  have hd0 : (grun I ({} : RGhost) pre).d = rrun I {} pre := grun_d I _ _
+  have e2 : (grun I (grun I ({} : RGhost) (pre ++ [a])) post).d = rrun I (rrun I {} (pre ++ [a])) post := by
+    rw [grun_d, hd1]
+  have := hs.1 _ (hsub post _ _ hmem)
+  rw [e2, hd0] at this
+  rw [hd1, hd0] at hreq
+  rcases this with h | ⟨h, harm⟩
+  · left; omega
+  · right; exact harm
+
+/-- `C16_refresh_drain_quiet` (progress / fairness): from EVERY state of the debouncer the continuation `drain`
+(refreshFn returns, time passes until the timer fires, the flusher runs, refreshFn returns — no new request)
+reaches a quiet state; with `C16_refresh_request_not_lost`: every request is followed by a refresh that starts
+after it. -/
+theorem C16_refresh_drain_quiet (I : Nat) (d : RDeb) : (rrun I d (dsched I d .drain)).quiet = true :=
+  drain_quiet I d
+
+/-- `C16_refresh_now_answered_by_later_refresh` (all schedules): a caller of `refreshNow()` is never handed the result of a
+refresh that had started before its call (the broadcaster it listens on is taken by the NEXT refresh start,
+also when the call is made while a refresh is running), and in a quiet state every caller has its answer. -/
+theorem C16_refresh_now_answered_by_later_refresh (I : Nat) (as : List RAct) :
+    (grun I {} as).early = [] ∧ ((grun I {} as).d.quiet = true → (grun I {} as).unanswered = []) := by
+  have h := grun_served_heard I as {} served_init heard_init
+  exact ⟨heard_early_nil _ h.2, heard_unanswered_nil _ h.1 h.2⟩
+
+/-- `C16_debouncer_oracle_ok`: the oracles the unit-level harness evaluates on the REAL refreshDebouncer (op
+`evdbserved` after `evdbdrain`: the requests not followed by a refresh start, the refreshNow() callers answered
+too early or not at all) are empty in the model for every sequence of harness ops. -/
+theorem C16_debouncer_oracle_ok (I : Nat) (ops : List DOp) :
+    let g := dstep I (drun I {} ops) .drain
+    g.lost = [] ∧ g.early = [] ∧ g.unanswered = [] ∧ g.d.quiet = true := by
+  have h0 := drun_served_heard I ops {} served_init heard_init
+  have h := grun_served_heard I (dsched I (drun I {} ops).d .drain) _ h0.1 h0.2
+  have hq : (dstep I (drun I {} ops) .drain).d.quiet = true := by
+    unfold dstep; rw [grun_d]; exact drain_quiet I _
+  exact ⟨served_lost_nil _ h.1 (quiet_not_armed _ hq), heard_early_nil _ h.2, heard_unanswered_nil _ h.1 h.2 hq, hq⟩
+
+/-- non-vacuity: a request while a refresh is running (the timer even fires during it), a `refreshNow()` during the
+next one (answered by the third refresh): three refreshes, nothing lost -/
+example :
+    let g := drun 5 {} [.req, .fire, .req, .fire, .release, .now, .req, .drain]
+    g.d.refreshes = 3 ∧ g.reqs = [0, 1, 2, 2] ∧ g.answers = [(2, 3)] ∧ g.lost = [] ∧ g.early = [] ∧ g.unanswered = [] ∧
+    g.d.quiet = true := by decide
+
+/-- what `early` is about: a variant (NOT the code) in which the flusher takes the broadcaster only when refreshFn has
+returned would answer a `refreshNow()` made during refresh 1 with the result of refresh 1 -/
+example : (RGhost.early { d := { refreshes := 1 }, reqs := [1], answers := [(0, 1)] }) = [0] := by decide
+
+/-- `C16_cex_drain_after_refresh_loses_request`: the variant in which the flusher stops and drains the timer once
+more AFTER refreshFn has returned (`drainAfterRefresh`) loses the request made while the refresh was running:
+the debouncer ends quiet, the second request (made when 1 refresh had started) is never followed by a
+refresh start — while the code that exists serves it with a second refresh on the same schedule. -/
+theorem C16_cex_drain_after_refresh_loses_request :
+    let as : List RAct := [.debounce, .tick, .tick, .tick, .wakeT, .start, .debounce, .done, .tick, .tick, .tick, .tick, .wakeT, .start, .done]
+    let bad := grunWith drainAfterRefresh 3 {} as
+    let good := grun 3 {} as
+    bad.d.quiet = true ∧ bad.d.refreshes = 1 ∧ bad.lost = [1] ∧
+    good.d.quiet = true ∧ good.d.refreshes = 2 ∧ good.lost = [] := by decide
 
 /-! ### after a refresh the view follows the report -/
 
